@@ -6,7 +6,7 @@ open OllamaVerif.Lockset
 def classNames : List String := ["Scheduler.expiredCh", "Scheduler.finishedReqCh", "Scheduler.getCpuFn", "Scheduler.getGpuFn", "Scheduler.loadFn", "Scheduler.loaded", "Scheduler.newServerFn", "Scheduler.pendingReqCh", "Scheduler.reschedDelay", "Scheduler.unloadedCh", "Server.addr", "Server.sched", "blobDownload.CancelFunc", "blobDownload.Completed", "blobDownload.Digest", "blobDownload.Name", "blobDownload.Parts", "blobDownload.Total", "blobDownload.done", "blobDownload.err", "blobDownload.references", "blobUpload.CancelFunc", "blobUpload.Completed", "blobUpload.Layer", "blobUpload.Parts", "blobUpload.Total", "blobUpload.done", "blobUpload.err", "blobUpload.file", "blobUpload.nextURL", "blobUpload.references", "global.blobDownloadManager", "global.blobUploadManager", "global.intermediateBlobs", "runnerRef.Options", "runnerRef.estimatedTotal", "runnerRef.estimatedVRAM", "runnerRef.expireTimer", "runnerRef.expiresAt", "runnerRef.gpus", "runnerRef.llama", "runnerRef.loading", "runnerRef.model", "runnerRef.modelPath", "runnerRef.numParallel", "runnerRef.refCount", "runnerRef.sessionDuration"]
 def lockNames : List String := ["Scheduler.loadedMu", "runnerRef.refMu"]
 def threadNames : List String := ["Scheduler.Run$1", "Scheduler.Run$2", "Scheduler.load$1", "Scheduler.load$1$1", "Scheduler.processCompleted$1", "Scheduler.processCompleted$2", "Scheduler.processPending$1", "Serve$2", "Server.CreateHandler$1", "Server.PullHandler$1", "Server.PushHandler$1", "api", "blobDownload.downloadChunk$1", "blobDownload.downloadChunk$2", "blobDownload.run$2", "blobUpload.Run$1", "go:downloadBlob:download.Run", "go:uploadBlob:upload.Run", "main", "runnerRef.waitForVRAMRecovery$1"]
-def siteNames : List String := ["InitScheduler:70", "Scheduler.processPending:292", "Scheduler.processCompleted:339", "Scheduler.expireRunner:825", "Scheduler.processCompleted$1:350", "Scheduler.processCompleted$2:370", "Scheduler.load$1:461", "InitScheduler:69", "Scheduler.processPending:153", "Scheduler.processCompleted:322", "Scheduler.load$1$1:469", "InitScheduler:75", "Scheduler.processPending:164", "InitScheduler:74", "Scheduler.processPending:166", "InitScheduler:78", "Scheduler.processPending:214", "Server.PsHandler:1401", "InitScheduler:72", "Scheduler.processPending:145", "Scheduler.processCompleted:324", "Scheduler.processCompleted:380", "Scheduler.load:450", "Scheduler.load:451", "Scheduler.updateFreeSpace:482", "Scheduler.filterGPUsWithoutLoadingModels:522", "Scheduler.findRunnerToUnload:772", "Scheduler.findRunnerToUnload:773", "Scheduler.unloadAllRunners:804", "Scheduler.expireRunner:815", "InitScheduler:73", "Scheduler.load:422", "InitScheduler:68", "Scheduler.GetRunner:98", "Scheduler.processPending:123", "Scheduler.processPending$1:270", "InitScheduler:76", "Scheduler.processPending$1:269", "InitScheduler:71", "Scheduler.processPending:303", "Scheduler.processCompleted:387", "Server.GenerateRoutes:1174", "Serve:1276", "Server.scheduleRunner:109", "Server.GenerateHandler:162", "Serve:1297", "Serve:1323", "Server.PsHandler:1400", "Server.ChatHandler:1466", "blobDownload.run:216", "blobDownload.release:432", "blobDownloadPart.Write:119", "blobDownload.Prepare:141", "blobDownload.Wait:450", "blobDownload.downloadChunk$1:346", "blobDownload.Prepare:177", "blobDownload.run:215", "blobDownload.Wait:447", "downloadBlob:488", "blobDownload.run$2:295", "blobDownload.downloadChunk$2:374", "blobDownloadPart.Name:105", "blobDownload.Prepare:127", "blobDownload.run:218", "blobDownload.run:322", "blobDownload.Prepare:142", "blobDownload.run:275", "blobDownload.newPart:391", "blobDownload.newPart:396", "blobDownload.Prepare:140", "blobDownload.Prepare:154", "blobDownload.run:225", "blobDownload.Wait:449", "blobDownload.Prepare:132", "blobDownload.Run:184", "blobDownload.Wait:443", "blobDownload.Run:185", "blobDownload.Wait:444", "blobDownload.acquire:427", "blobDownload.release:431", "blobUpload.Run:129", "blobUpload.release:313", "blobUpload.Prepare:87", "blobUpload.Wait:333", "progressWriter.Write:358", "progressWriter.Rollback:363", "blobUpload.Prepare:54", "blobUpload.Run:128", "blobUpload.Run:189", "blobUpload.uploadPart:269", "blobUpload.Wait:330", "uploadBlob:388", "blobUpload.Run$1:162", "blobUpload.Prepare:107", "blobUpload.Run:146", "blobUpload.Prepare:82", "blobUpload.Wait:332", "blobUpload.Prepare:88", "blobUpload.Run:213", "blobUpload.Wait:336", "blobUpload.Run:133", "blobUpload.Run:176", "blobUpload.Run:137", "blobUpload.Run:142", "blobUpload.uploadPart:226", "blobUpload.Prepare:120", "blobUpload.Prepare:121", "blobUpload.Run:150", "blobUpload.uploadPart:252", "blobUpload.acquire:308", "blobUpload.release:312", "Server.CreateBlobHandler:1006", "Server.CreateBlobHandler:1015", "Scheduler.load:438", "runnerRef.unload:572", "runnerRef.needsReload:586", "Server.PsHandler:1414", "Scheduler.load:442", "Server.PsHandler:1415", "Scheduler.load:441", "runnerRef.waitForVRAMRecovery$1:660", "Scheduler.processPending:286", "Scheduler.processPending:288", "Scheduler.processCompleted:335", "Scheduler.processCompleted:337", "LlmRequest.useLoadedRunner:399", "LlmRequest.useLoadedRunner:401", "runnerRef.unload:563", "runnerRef.unload:565", "Scheduler.expireRunner:819", "Scheduler.expireRunner:821", "Scheduler.processCompleted$1:346", "Scheduler.processCompleted$1:348", "Server.PsHandler:1418", "Scheduler.processCompleted:352", "Scheduler.expireRunner:818", "Scheduler.load:440", "Scheduler.filterGPUsWithoutLoadingModels:524", "runnerRef.unload:573", "runnerRef.waitForVRAMRecovery:626", "Server.scheduleRunner:117", "Scheduler.load:437", "Scheduler.updateFreeSpace:484", "runnerRef.unload:567", "runnerRef.unload:571", "runnerRef.needsReload:606", "Scheduler.unloadAllRunners:805", "Scheduler.load:443", "Scheduler.filterGPUsWithoutLoadingModels:523", "runnerRef.needsReload:582", "Scheduler.load$1:465", "Server.PsHandler:1402", "Scheduler.load:435", "runnerRef.unload:570", "runnerRef.needsReload:603", "Scheduler.processPending:285", "Scheduler.processPending:298", "Scheduler.processCompleted:334", "Scheduler.processCompleted:362", "Scheduler.processCompleted:377", "Scheduler.load:436", "ByDurationAndName.Less:682", "Scheduler.processCompleted$1:343", "Scheduler.load$1:460", "runnerRef.waitForVRAMRecovery$1:648", "Scheduler.load:446", "runnerRef.needsReload:599", "Scheduler.processCompleted:331", "Scheduler.processCompleted:332", "LlmRequest.useLoadedRunner:398", "Scheduler.load:444", "Scheduler.findRunnerToUnload:789", "Scheduler.expireRunner:824", "Scheduler.load$1:458", "Server.PsHandler:1425", "Scheduler.processPending:290", "Scheduler.processCompleted:333", "LlmRequest.useLoadedRunner:404", "Scheduler.load:439", "ByDurationAndName.Less:676", "Scheduler.expireRunner:823"]
+def siteNames : List String := ["InitScheduler:70", "Scheduler.processPending:295", "Scheduler.processCompleted:342", "Scheduler.expireRunner:844", "Scheduler.processCompleted$1:353", "Scheduler.processCompleted$2:376", "Scheduler.load$1:480", "InitScheduler:69", "Scheduler.processPending:153", "Scheduler.processCompleted:325", "Scheduler.load$1$1:488", "InitScheduler:75", "Scheduler.processPending:167", "InitScheduler:74", "Scheduler.processPending:169", "InitScheduler:78", "Scheduler.processPending:217", "Server.PsHandler:1424", "InitScheduler:72", "Scheduler.processPending:145", "Scheduler.processCompleted:327", "Scheduler.processCompleted:391", "Scheduler.load:469", "Scheduler.load:470", "Scheduler.updateFreeSpace:501", "Scheduler.filterGPUsWithoutLoadingModels:541", "Scheduler.findRunnerToUnload:791", "Scheduler.findRunnerToUnload:792", "Scheduler.unloadAllRunners:823", "Scheduler.expireRunner:834", "InitScheduler:73", "Scheduler.load:441", "InitScheduler:68", "Scheduler.GetRunner:98", "Scheduler.processPending:123", "Scheduler.processPending$1:273", "InitScheduler:76", "Scheduler.processPending$1:272", "InitScheduler:71", "Scheduler.processPending:306", "Scheduler.processCompleted:399", "Server.GenerateRoutes:1197", "Serve:1299", "Server.scheduleRunner:109", "Server.GenerateHandler:162", "Serve:1320", "Serve:1346", "Server.PsHandler:1423", "Server.ChatHandler:1489", "blobDownload.run:217", "blobDownload.release:433", "blobDownloadPart.Write:120", "blobDownload.Prepare:142", "blobDownload.Wait:451", "blobDownload.downloadChunk$1:347", "blobDownload.Prepare:178", "blobDownload.run:216", "blobDownload.Wait:448", "downloadBlob:494", "blobDownload.run$2:296", "blobDownload.downloadChunk$2:375", "blobDownloadPart.Name:106", "blobDownload.Prepare:128", "blobDownload.run:219", "blobDownload.run:323", "blobDownload.Prepare:143", "blobDownload.run:276", "blobDownload.newPart:392", "blobDownload.newPart:397", "blobDownload.Prepare:141", "blobDownload.Prepare:155", "blobDownload.run:226", "blobDownload.Wait:450", "blobDownload.Prepare:133", "blobDownload.Run:185", "blobDownload.Wait:444", "blobDownload.Run:186", "blobDownload.Wait:445", "blobDownload.acquire:428", "blobDownload.release:432", "blobUpload.Run:129", "blobUpload.release:313", "blobUpload.Prepare:87", "blobUpload.Wait:333", "progressWriter.Write:358", "progressWriter.Rollback:363", "blobUpload.Prepare:54", "blobUpload.Run:128", "blobUpload.Run:189", "blobUpload.uploadPart:269", "blobUpload.Wait:330", "uploadBlob:388", "blobUpload.Run$1:162", "blobUpload.Prepare:107", "blobUpload.Run:146", "blobUpload.Prepare:82", "blobUpload.Wait:332", "blobUpload.Prepare:88", "blobUpload.Run:213", "blobUpload.Wait:336", "blobUpload.Run:133", "blobUpload.Run:176", "blobUpload.Run:137", "blobUpload.Run:142", "blobUpload.uploadPart:226", "blobUpload.Prepare:120", "blobUpload.Prepare:121", "blobUpload.Run:150", "blobUpload.uploadPart:252", "blobUpload.acquire:308", "blobUpload.release:312", "Server.CreateBlobHandler:1029", "Server.CreateBlobHandler:1038", "Scheduler.load:457", "runnerRef.unload:591", "runnerRef.needsReload:605", "Server.PsHandler:1437", "Scheduler.load:461", "Server.PsHandler:1438", "Scheduler.load:460", "runnerRef.waitForVRAMRecovery$1:679", "Scheduler.processPending:289", "Scheduler.processPending:291", "Scheduler.processCompleted:338", "Scheduler.processCompleted:340", "LlmRequest.useLoadedRunner:417", "LlmRequest.useLoadedRunner:419", "runnerRef.unload:582", "runnerRef.unload:584", "Scheduler.expireRunner:838", "Scheduler.expireRunner:840", "Scheduler.processCompleted$1:349", "Scheduler.processCompleted$1:351", "Server.PsHandler:1441", "Scheduler.processCompleted:355", "Scheduler.expireRunner:837", "Scheduler.load:459", "Scheduler.filterGPUsWithoutLoadingModels:543", "runnerRef.unload:592", "runnerRef.waitForVRAMRecovery:645", "Server.scheduleRunner:117", "LlmRequest.useLoadedRunner:411", "Scheduler.load:456", "Scheduler.updateFreeSpace:503", "runnerRef.unload:586", "runnerRef.unload:590", "runnerRef.needsReload:625", "Scheduler.unloadAllRunners:824", "Scheduler.load:462", "Scheduler.filterGPUsWithoutLoadingModels:542", "runnerRef.needsReload:601", "Scheduler.load$1:484", "Server.PsHandler:1425", "Scheduler.load:454", "runnerRef.unload:589", "runnerRef.needsReload:622", "Scheduler.processPending:288", "Scheduler.processPending:301", "Scheduler.processCompleted:337", "Scheduler.processCompleted:365", "Scheduler.processCompleted:371", "Scheduler.load:455", "ByDurationAndName.Less:701", "Scheduler.processCompleted$1:346", "Scheduler.load$1:479", "runnerRef.waitForVRAMRecovery$1:667", "Scheduler.load:465", "runnerRef.needsReload:618", "Scheduler.processCompleted:334", "Scheduler.processCompleted:335", "Scheduler.processCompleted:370", "LlmRequest.useLoadedRunner:416", "Scheduler.load:463", "Scheduler.findRunnerToUnload:808", "Scheduler.expireRunner:843", "Scheduler.load$1:477", "Server.PsHandler:1448", "Scheduler.processPending:293", "Scheduler.processCompleted:336", "LlmRequest.useLoadedRunner:422", "Scheduler.load:458", "ByDurationAndName.Less:695", "Scheduler.expireRunner:842"]
 def hbNames : List String := ["-", "holder (C01: no unload while a request holds the runner)", "doneclose (write before close(done), read after <-done)"]
 
 private def mk (site cls : Nat) (kind : Kind) (locks : List LockRef) (thread : Nat) (single init racy atomic : Bool)
@@ -15,110 +15,110 @@ private def mk (site cls : Nat) (kind : Kind) (locks : List LockRef) (thread : N
 
 def accesses : List Access := [
   mk 0 0 .write [] 18 true true false false [10, 11] [] [],  -- 0 Scheduler.expiredCh InitScheduler:70 @main
-  mk 1 0 .read [] 0 true false false false [] [13] [],  -- 1 Scheduler.expiredCh Scheduler.processPending:292 @Scheduler.Run$1
-  mk 2 0 .read [] 1 true false false false [] [14] [],  -- 2 Scheduler.expiredCh Scheduler.processCompleted:339 @Scheduler.Run$2
-  mk 3 0 .read [⟨0, false⟩] 11 false false false false [] [11] [],  -- 3 Scheduler.expiredCh Scheduler.expireRunner:825 @api
-  mk 4 0 .read [] 4 false false false false [] [14] [],  -- 4 Scheduler.expiredCh Scheduler.processCompleted$1:350 @Scheduler.processCompleted$1
-  mk 5 0 .read [] 5 false false false false [] [14] [],  -- 5 Scheduler.expiredCh Scheduler.processCompleted$2:370 @Scheduler.processCompleted$2
-  mk 6 0 .read [] 2 false false false false [] [13] [],  -- 6 Scheduler.expiredCh Scheduler.load$1:461 @Scheduler.load$1
+  mk 1 0 .read [] 0 true false false false [] [13] [],  -- 1 Scheduler.expiredCh Scheduler.processPending:295 @Scheduler.Run$1
+  mk 2 0 .read [] 1 true false false false [] [14] [],  -- 2 Scheduler.expiredCh Scheduler.processCompleted:342 @Scheduler.Run$2
+  mk 3 0 .read [⟨0, false⟩] 11 false false false false [] [11] [],  -- 3 Scheduler.expiredCh Scheduler.expireRunner:844 @api
+  mk 4 0 .read [] 4 false false false false [] [14] [],  -- 4 Scheduler.expiredCh Scheduler.processCompleted$1:353 @Scheduler.processCompleted$1
+  mk 5 0 .read [] 5 false false false false [] [14] [],  -- 5 Scheduler.expiredCh Scheduler.processCompleted$2:376 @Scheduler.processCompleted$2
+  mk 6 0 .read [] 2 false false false false [] [13] [],  -- 6 Scheduler.expiredCh Scheduler.load$1:480 @Scheduler.load$1
   mk 7 1 .write [] 18 true true false false [10, 11] [] [],  -- 7 Scheduler.finishedReqCh InitScheduler:69 @main
   mk 8 1 .read [] 0 true false false false [] [13] [],  -- 8 Scheduler.finishedReqCh Scheduler.processPending:153 @Scheduler.Run$1
-  mk 9 1 .read [] 1 true false false false [] [14] [],  -- 9 Scheduler.finishedReqCh Scheduler.processCompleted:322 @Scheduler.Run$2
-  mk 10 1 .read [] 3 false false false false [] [13] [],  -- 10 Scheduler.finishedReqCh Scheduler.load$1$1:469 @Scheduler.load$1$1
+  mk 9 1 .read [] 1 true false false false [] [14] [],  -- 9 Scheduler.finishedReqCh Scheduler.processCompleted:325 @Scheduler.Run$2
+  mk 10 1 .read [] 3 false false false false [] [13] [],  -- 10 Scheduler.finishedReqCh Scheduler.load$1$1:488 @Scheduler.load$1$1
   mk 11 2 .write [] 18 true true false false [10, 11] [] [],  -- 11 Scheduler.getCpuFn InitScheduler:75 @main
-  mk 12 2 .read [] 0 true false false false [] [13] [],  -- 12 Scheduler.getCpuFn Scheduler.processPending:164 @Scheduler.Run$1
+  mk 12 2 .read [] 0 true false false false [] [13] [],  -- 12 Scheduler.getCpuFn Scheduler.processPending:167 @Scheduler.Run$1
   mk 13 3 .write [] 18 true true false false [10, 11] [] [],  -- 13 Scheduler.getGpuFn InitScheduler:74 @main
-  mk 14 3 .read [] 0 true false false false [] [13] [],  -- 14 Scheduler.getGpuFn Scheduler.processPending:166 @Scheduler.Run$1
+  mk 14 3 .read [] 0 true false false false [] [13] [],  -- 14 Scheduler.getGpuFn Scheduler.processPending:169 @Scheduler.Run$1
   mk 15 4 .write [] 18 true true false false [10, 11] [] [],  -- 15 Scheduler.loadFn InitScheduler:78 @main
-  mk 16 4 .read [] 0 true false false false [] [13] [],  -- 16 Scheduler.loadFn Scheduler.processPending:214 @Scheduler.Run$1
-  mk 17 5 .mapIter [⟨0, false⟩] 11 false false false false [] [11] [],  -- 17 Scheduler.loaded Server.PsHandler:1401 @api
+  mk 16 4 .read [] 0 true false false false [] [13] [],  -- 16 Scheduler.loadFn Scheduler.processPending:217 @Scheduler.Run$1
+  mk 17 5 .mapIter [⟨0, false⟩] 11 false false false false [] [11] [],  -- 17 Scheduler.loaded Server.PsHandler:1424 @api
   mk 18 5 .write [] 18 true true false false [10, 11] [] [],  -- 18 Scheduler.loaded InitScheduler:72 @main
   mk 19 5 .mapRead [⟨0, false⟩] 0 true false false false [] [13] [],  -- 19 Scheduler.loaded Scheduler.processPending:145 @Scheduler.Run$1
-  mk 20 5 .mapRead [⟨0, false⟩] 1 true false false false [] [14] [],  -- 20 Scheduler.loaded Scheduler.processCompleted:324 @Scheduler.Run$2
-  mk 21 5 .mapDelete [⟨0, false⟩] 1 true false false false [] [14] [],  -- 21 Scheduler.loaded Scheduler.processCompleted:380 @Scheduler.Run$2
-  mk 22 5 .mapInsert [⟨0, false⟩] 0 true false false false [] [13] [],  -- 22 Scheduler.loaded Scheduler.load:450 @Scheduler.Run$1
-  mk 23 5 .mapRead [⟨0, false⟩] 0 true false false false [] [13] [],  -- 23 Scheduler.loaded Scheduler.load:451 @Scheduler.Run$1
-  mk 24 5 .mapIter [⟨0, false⟩] 0 true false false false [] [13] [],  -- 24 Scheduler.loaded Scheduler.updateFreeSpace:482 @Scheduler.Run$1
-  mk 25 5 .mapIter [⟨0, false⟩] 0 true false false false [] [13] [],  -- 25 Scheduler.loaded Scheduler.filterGPUsWithoutLoadingModels:522 @Scheduler.Run$1
-  mk 26 5 .mapRead [⟨0, false⟩] 0 true false false false [] [13] [],  -- 26 Scheduler.loaded Scheduler.findRunnerToUnload:772 @Scheduler.Run$1
-  mk 27 5 .mapIter [⟨0, false⟩] 0 true false false false [] [13] [],  -- 27 Scheduler.loaded Scheduler.findRunnerToUnload:773 @Scheduler.Run$1
-  mk 28 5 .mapIter [⟨0, false⟩] 7 true false false false [] [10] [],  -- 28 Scheduler.loaded Scheduler.unloadAllRunners:804 @Serve$2
-  mk 29 5 .mapRead [⟨0, false⟩] 11 false false false false [] [11] [],  -- 29 Scheduler.loaded Scheduler.expireRunner:815 @api
+  mk 20 5 .mapRead [⟨0, false⟩] 1 true false false false [] [14] [],  -- 20 Scheduler.loaded Scheduler.processCompleted:327 @Scheduler.Run$2
+  mk 21 5 .mapDelete [⟨0, false⟩] 1 true false false false [] [14] [],  -- 21 Scheduler.loaded Scheduler.processCompleted:391 @Scheduler.Run$2
+  mk 22 5 .mapInsert [⟨0, false⟩] 0 true false false false [] [13] [],  -- 22 Scheduler.loaded Scheduler.load:469 @Scheduler.Run$1
+  mk 23 5 .mapRead [⟨0, false⟩] 0 true false false false [] [13] [],  -- 23 Scheduler.loaded Scheduler.load:470 @Scheduler.Run$1
+  mk 24 5 .mapIter [⟨0, false⟩] 0 true false false false [] [13] [],  -- 24 Scheduler.loaded Scheduler.updateFreeSpace:501 @Scheduler.Run$1
+  mk 25 5 .mapIter [⟨0, false⟩] 0 true false false false [] [13] [],  -- 25 Scheduler.loaded Scheduler.filterGPUsWithoutLoadingModels:541 @Scheduler.Run$1
+  mk 26 5 .mapRead [⟨0, false⟩] 0 true false false false [] [13] [],  -- 26 Scheduler.loaded Scheduler.findRunnerToUnload:791 @Scheduler.Run$1
+  mk 27 5 .mapIter [⟨0, false⟩] 0 true false false false [] [13] [],  -- 27 Scheduler.loaded Scheduler.findRunnerToUnload:792 @Scheduler.Run$1
+  mk 28 5 .mapIter [⟨0, false⟩] 7 true false false false [] [10] [],  -- 28 Scheduler.loaded Scheduler.unloadAllRunners:823 @Serve$2
+  mk 29 5 .mapRead [⟨0, false⟩] 11 false false false false [] [11] [],  -- 29 Scheduler.loaded Scheduler.expireRunner:834 @api
   mk 30 6 .write [] 18 true true false false [10, 11] [] [],  -- 30 Scheduler.newServerFn InitScheduler:73 @main
-  mk 31 6 .read [] 0 true false false false [] [13] [],  -- 31 Scheduler.newServerFn Scheduler.load:422 @Scheduler.Run$1
+  mk 31 6 .read [] 0 true false false false [] [13] [],  -- 31 Scheduler.newServerFn Scheduler.load:441 @Scheduler.Run$1
   mk 32 7 .write [] 18 true true false false [10, 11] [] [],  -- 32 Scheduler.pendingReqCh InitScheduler:68 @main
   mk 33 7 .read [] 11 false false false false [] [11] [],  -- 33 Scheduler.pendingReqCh Scheduler.GetRunner:98 @api
   mk 34 7 .read [] 0 true false false false [] [13] [],  -- 34 Scheduler.pendingReqCh Scheduler.processPending:123 @Scheduler.Run$1
-  mk 35 7 .read [] 6 false false false false [] [13] [],  -- 35 Scheduler.pendingReqCh Scheduler.processPending$1:270 @Scheduler.processPending$1
+  mk 35 7 .read [] 6 false false false false [] [13] [],  -- 35 Scheduler.pendingReqCh Scheduler.processPending$1:273 @Scheduler.processPending$1
   mk 36 8 .write [] 18 true true false false [10, 11] [] [],  -- 36 Scheduler.reschedDelay InitScheduler:76 @main
-  mk 37 8 .read [] 6 false false false false [] [13] [],  -- 37 Scheduler.reschedDelay Scheduler.processPending$1:269 @Scheduler.processPending$1
+  mk 37 8 .read [] 6 false false false false [] [13] [],  -- 37 Scheduler.reschedDelay Scheduler.processPending$1:272 @Scheduler.processPending$1
   mk 38 9 .write [] 18 true true false false [10, 11] [] [],  -- 38 Scheduler.unloadedCh InitScheduler:71 @main
-  mk 39 9 .read [] 0 true false false false [] [13] [],  -- 39 Scheduler.unloadedCh Scheduler.processPending:303 @Scheduler.Run$1
-  mk 40 9 .read [] 1 true false false false [] [14] [],  -- 40 Scheduler.unloadedCh Scheduler.processCompleted:387 @Scheduler.Run$2
-  mk 41 10 .read [] 18 true false false false [10, 11] [] [],  -- 41 Server.addr Server.GenerateRoutes:1174 @main
-  mk 42 10 .write [] 18 true true false false [10, 11] [] [],  -- 42 Server.addr Serve:1276 @main
+  mk 39 9 .read [] 0 true false false false [] [13] [],  -- 39 Scheduler.unloadedCh Scheduler.processPending:306 @Scheduler.Run$1
+  mk 40 9 .read [] 1 true false false false [] [14] [],  -- 40 Scheduler.unloadedCh Scheduler.processCompleted:399 @Scheduler.Run$2
+  mk 41 10 .read [] 18 true false false false [10, 11] [] [],  -- 41 Server.addr Server.GenerateRoutes:1197 @main
+  mk 42 10 .write [] 18 true true false false [10, 11] [] [],  -- 42 Server.addr Serve:1299 @main
   mk 43 11 .read [] 11 false false false false [] [11] [],  -- 43 Server.sched Server.scheduleRunner:109 @api
   mk 44 11 .read [] 11 false false false false [] [11] [],  -- 44 Server.sched Server.GenerateHandler:162 @api
-  mk 45 11 .write [] 18 true false false false [10, 11] [] [],  -- 45 Server.sched Serve:1297 @main
-  mk 46 11 .read [] 18 true false false false [11] [] [],  -- 46 Server.sched Serve:1323 @main
-  mk 47 11 .read [] 11 false false false false [] [11] [],  -- 47 Server.sched Server.PsHandler:1400 @api
-  mk 17 11 .read [⟨0, false⟩] 11 false false false false [] [11] [],  -- 48 Server.sched Server.PsHandler:1401 @api
-  mk 48 11 .read [] 11 false false false false [] [11] [],  -- 49 Server.sched Server.ChatHandler:1466 @api
-  mk 49 12 .write [] 16 true false false false [2] [5, 11] [],  -- 50 blobDownload.CancelFunc blobDownload.run:216 @go:downloadBlob:download.Run
-  mk 50 12 .read [] 8 false false false false [] [11] [],  -- 51 blobDownload.CancelFunc blobDownload.release:432 @Server.CreateHandler$1
-  mk 50 12 .read [] 9 false false false false [] [11] [],  -- 52 blobDownload.CancelFunc blobDownload.release:432 @Server.PullHandler$1
-  mk 51 13 .write [] 11 false false false true [] [11] [],  -- 53 blobDownload.Completed blobDownloadPart.Write:119 @api
-  mk 52 13 .write [] 8 false false false true [5] [11] [],  -- 54 blobDownload.Completed blobDownload.Prepare:141 @Server.CreateHandler$1
-  mk 52 13 .write [] 9 false false false true [5] [11] [],  -- 55 blobDownload.Completed blobDownload.Prepare:141 @Server.PullHandler$1
-  mk 53 13 .read [] 8 false false false true [] [11] [],  -- 56 blobDownload.Completed blobDownload.Wait:450 @Server.CreateHandler$1
-  mk 53 13 .read [] 9 false false false true [] [11] [],  -- 57 blobDownload.Completed blobDownload.Wait:450 @Server.PullHandler$1
-  mk 54 13 .write [] 12 false false false true [] [2, 5, 11] [],  -- 58 blobDownload.Completed blobDownload.downloadChunk$1:346 @blobDownload.downloadChunk$1
-  mk 55 14 .read [] 8 false false false false [5] [11] [],  -- 59 blobDownload.Digest blobDownload.Prepare:177 @Server.CreateHandler$1
-  mk 55 14 .read [] 9 false false false false [5] [11] [],  -- 60 blobDownload.Digest blobDownload.Prepare:177 @Server.PullHandler$1
-  mk 56 14 .read [] 16 true false false false [2] [5, 11] [],  -- 61 blobDownload.Digest blobDownload.run:215 @go:downloadBlob:download.Run
-  mk 57 14 .read [] 8 false false false false [] [11] [],  -- 62 blobDownload.Digest blobDownload.Wait:447 @Server.CreateHandler$1
-  mk 57 14 .read [] 9 false false false false [] [11] [],  -- 63 blobDownload.Digest blobDownload.Wait:447 @Server.PullHandler$1
-  mk 58 14 .write [] 8 false true false false [5] [11] [],  -- 64 blobDownload.Digest downloadBlob:488 @Server.CreateHandler$1
-  mk 58 14 .write [] 9 false true false false [5] [11] [],  -- 65 blobDownload.Digest downloadBlob:488 @Server.PullHandler$1
-  mk 59 14 .read [] 14 false false false false [] [2, 5, 11] [],  -- 66 blobDownload.Digest blobDownload.run$2:295 @blobDownload.run$2
-  mk 60 14 .read [] 13 false false false false [] [2, 5, 11] [],  -- 67 blobDownload.Digest blobDownload.downloadChunk$2:374 @blobDownload.downloadChunk$2
-  mk 61 15 .read [] 8 false false false false [] [11] [],  -- 68 blobDownload.Name blobDownloadPart.Name:105 @Server.CreateHandler$1
-  mk 61 15 .read [] 9 false false false false [] [11] [],  -- 69 blobDownload.Name blobDownloadPart.Name:105 @Server.PullHandler$1
-  mk 61 15 .read [] 12 false false false false [] [11] [],  -- 70 blobDownload.Name blobDownloadPart.Name:105 @blobDownload.downloadChunk$1
-  mk 62 15 .read [] 8 false false false false [5] [11] [],  -- 71 blobDownload.Name blobDownload.Prepare:127 @Server.CreateHandler$1
-  mk 62 15 .read [] 9 false false false false [5] [11] [],  -- 72 blobDownload.Name blobDownload.Prepare:127 @Server.PullHandler$1
-  mk 63 15 .read [] 16 true false false false [2] [5, 11] [],  -- 73 blobDownload.Name blobDownload.run:218 @go:downloadBlob:download.Run
-  mk 64 15 .read [] 16 true false false false [] [5, 11] [],  -- 74 blobDownload.Name blobDownload.run:322 @go:downloadBlob:download.Run
-  mk 58 15 .write [] 8 false true false false [5] [11] [],  -- 75 blobDownload.Name downloadBlob:488 @Server.CreateHandler$1
-  mk 58 15 .write [] 9 false true false false [5] [11] [],  -- 76 blobDownload.Name downloadBlob:488 @Server.PullHandler$1
-  mk 65 16 .read [] 8 false false false false [5] [11] [],  -- 77 blobDownload.Parts blobDownload.Prepare:142 @Server.CreateHandler$1
-  mk 65 16 .read [] 9 false false false false [5] [11] [],  -- 78 blobDownload.Parts blobDownload.Prepare:142 @Server.PullHandler$1
-  mk 65 16 .write [] 8 false false false false [5] [11] [],  -- 79 blobDownload.Parts blobDownload.Prepare:142 @Server.CreateHandler$1
-  mk 65 16 .write [] 9 false false false false [5] [11] [],  -- 80 blobDownload.Parts blobDownload.Prepare:142 @Server.PullHandler$1
-  mk 66 16 .read [] 16 true false false false [] [5, 11] [],  -- 81 blobDownload.Parts blobDownload.run:275 @go:downloadBlob:download.Run
-  mk 67 16 .read [] 8 false false false false [5] [11] [],  -- 82 blobDownload.Parts blobDownload.newPart:391 @Server.CreateHandler$1
-  mk 67 16 .read [] 9 false false false false [5] [11] [],  -- 83 blobDownload.Parts blobDownload.newPart:391 @Server.PullHandler$1
-  mk 68 16 .write [] 8 false false false false [5] [11] [],  -- 84 blobDownload.Parts blobDownload.newPart:396 @Server.CreateHandler$1
-  mk 68 16 .write [] 9 false false false false [5] [11] [],  -- 85 blobDownload.Parts blobDownload.newPart:396 @Server.PullHandler$1
-  mk 69 17 .write [] 8 false false false false [5] [11] [],  -- 86 blobDownload.Total blobDownload.Prepare:140 @Server.CreateHandler$1
-  mk 69 17 .write [] 9 false false false false [5] [11] [],  -- 87 blobDownload.Total blobDownload.Prepare:140 @Server.PullHandler$1
-  mk 70 17 .read [] 8 false false false false [5] [11] [],  -- 88 blobDownload.Total blobDownload.Prepare:154 @Server.CreateHandler$1
-  mk 70 17 .read [] 9 false false false false [5] [11] [],  -- 89 blobDownload.Total blobDownload.Prepare:154 @Server.PullHandler$1
-  mk 71 17 .read [] 16 true false false false [2] [5, 11] [],  -- 90 blobDownload.Total blobDownload.run:225 @go:downloadBlob:download.Run
-  mk 72 17 .read [] 8 false false false false [] [11] [],  -- 91 blobDownload.Total blobDownload.Wait:449 @Server.CreateHandler$1
-  mk 72 17 .read [] 9 false false false false [] [11] [],  -- 92 blobDownload.Total blobDownload.Wait:449 @Server.PullHandler$1
-  mk 73 18 .write [] 8 false false false false [5] [11] [],  -- 93 blobDownload.done blobDownload.Prepare:132 @Server.CreateHandler$1
-  mk 73 18 .write [] 9 false false false false [5] [11] [],  -- 94 blobDownload.done blobDownload.Prepare:132 @Server.PullHandler$1
-  mk 74 18 .read [] 16 true false false false [] [5, 11] [],  -- 95 blobDownload.done blobDownload.Run:184 @go:downloadBlob:download.Run
-  mk 75 18 .read [] 8 false false false false [] [11] [2],  -- 96 blobDownload.done blobDownload.Wait:443 @Server.CreateHandler$1
-  mk 75 18 .read [] 9 false false false false [] [11] [2],  -- 97 blobDownload.done blobDownload.Wait:443 @Server.PullHandler$1
-  mk 76 19 .write [] 16 true false false false [] [5, 11] [2],  -- 98 blobDownload.err blobDownload.Run:185 @go:downloadBlob:download.Run
-  mk 77 19 .read [] 8 false false false false [] [11] [2],  -- 99 blobDownload.err blobDownload.Wait:444 @Server.CreateHandler$1
-  mk 77 19 .read [] 9 false false false false [] [11] [2],  -- 100 blobDownload.err blobDownload.Wait:444 @Server.PullHandler$1
-  mk 78 20 .write [] 8 false false false true [] [11] [],  -- 101 blobDownload.references blobDownload.acquire:427 @Server.CreateHandler$1
-  mk 78 20 .write [] 9 false false false true [] [11] [],  -- 102 blobDownload.references blobDownload.acquire:427 @Server.PullHandler$1
-  mk 79 20 .write [] 8 false false false true [] [11] [],  -- 103 blobDownload.references blobDownload.release:431 @Server.CreateHandler$1
-  mk 79 20 .write [] 9 false false false true [] [11] [],  -- 104 blobDownload.references blobDownload.release:431 @Server.PullHandler$1
+  mk 45 11 .write [] 18 true false false false [10, 11] [] [],  -- 45 Server.sched Serve:1320 @main
+  mk 46 11 .read [] 18 true false false false [11] [] [],  -- 46 Server.sched Serve:1346 @main
+  mk 47 11 .read [] 11 false false false false [] [11] [],  -- 47 Server.sched Server.PsHandler:1423 @api
+  mk 17 11 .read [⟨0, false⟩] 11 false false false false [] [11] [],  -- 48 Server.sched Server.PsHandler:1424 @api
+  mk 48 11 .read [] 11 false false false false [] [11] [],  -- 49 Server.sched Server.ChatHandler:1489 @api
+  mk 49 12 .write [] 16 true false false false [2] [5, 11] [],  -- 50 blobDownload.CancelFunc blobDownload.run:217 @go:downloadBlob:download.Run
+  mk 50 12 .read [] 8 false false false false [] [11] [],  -- 51 blobDownload.CancelFunc blobDownload.release:433 @Server.CreateHandler$1
+  mk 50 12 .read [] 9 false false false false [] [11] [],  -- 52 blobDownload.CancelFunc blobDownload.release:433 @Server.PullHandler$1
+  mk 51 13 .write [] 11 false false false true [] [11] [],  -- 53 blobDownload.Completed blobDownloadPart.Write:120 @api
+  mk 52 13 .write [] 8 false false false true [5] [11] [],  -- 54 blobDownload.Completed blobDownload.Prepare:142 @Server.CreateHandler$1
+  mk 52 13 .write [] 9 false false false true [5] [11] [],  -- 55 blobDownload.Completed blobDownload.Prepare:142 @Server.PullHandler$1
+  mk 53 13 .read [] 8 false false false true [] [11] [],  -- 56 blobDownload.Completed blobDownload.Wait:451 @Server.CreateHandler$1
+  mk 53 13 .read [] 9 false false false true [] [11] [],  -- 57 blobDownload.Completed blobDownload.Wait:451 @Server.PullHandler$1
+  mk 54 13 .write [] 12 false false false true [] [2, 5, 11] [],  -- 58 blobDownload.Completed blobDownload.downloadChunk$1:347 @blobDownload.downloadChunk$1
+  mk 55 14 .read [] 8 false false false false [5] [11] [],  -- 59 blobDownload.Digest blobDownload.Prepare:178 @Server.CreateHandler$1
+  mk 55 14 .read [] 9 false false false false [5] [11] [],  -- 60 blobDownload.Digest blobDownload.Prepare:178 @Server.PullHandler$1
+  mk 56 14 .read [] 16 true false false false [2] [5, 11] [],  -- 61 blobDownload.Digest blobDownload.run:216 @go:downloadBlob:download.Run
+  mk 57 14 .read [] 8 false false false false [] [11] [],  -- 62 blobDownload.Digest blobDownload.Wait:448 @Server.CreateHandler$1
+  mk 57 14 .read [] 9 false false false false [] [11] [],  -- 63 blobDownload.Digest blobDownload.Wait:448 @Server.PullHandler$1
+  mk 58 14 .write [] 8 false true false false [5] [11] [],  -- 64 blobDownload.Digest downloadBlob:494 @Server.CreateHandler$1
+  mk 58 14 .write [] 9 false true false false [5] [11] [],  -- 65 blobDownload.Digest downloadBlob:494 @Server.PullHandler$1
+  mk 59 14 .read [] 14 false false false false [] [2, 5, 11] [],  -- 66 blobDownload.Digest blobDownload.run$2:296 @blobDownload.run$2
+  mk 60 14 .read [] 13 false false false false [] [2, 5, 11] [],  -- 67 blobDownload.Digest blobDownload.downloadChunk$2:375 @blobDownload.downloadChunk$2
+  mk 61 15 .read [] 8 false false false false [] [11] [],  -- 68 blobDownload.Name blobDownloadPart.Name:106 @Server.CreateHandler$1
+  mk 61 15 .read [] 9 false false false false [] [11] [],  -- 69 blobDownload.Name blobDownloadPart.Name:106 @Server.PullHandler$1
+  mk 61 15 .read [] 12 false false false false [] [11] [],  -- 70 blobDownload.Name blobDownloadPart.Name:106 @blobDownload.downloadChunk$1
+  mk 62 15 .read [] 8 false false false false [5] [11] [],  -- 71 blobDownload.Name blobDownload.Prepare:128 @Server.CreateHandler$1
+  mk 62 15 .read [] 9 false false false false [5] [11] [],  -- 72 blobDownload.Name blobDownload.Prepare:128 @Server.PullHandler$1
+  mk 63 15 .read [] 16 true false false false [2] [5, 11] [],  -- 73 blobDownload.Name blobDownload.run:219 @go:downloadBlob:download.Run
+  mk 64 15 .read [] 16 true false false false [] [5, 11] [],  -- 74 blobDownload.Name blobDownload.run:323 @go:downloadBlob:download.Run
+  mk 58 15 .write [] 8 false true false false [5] [11] [],  -- 75 blobDownload.Name downloadBlob:494 @Server.CreateHandler$1
+  mk 58 15 .write [] 9 false true false false [5] [11] [],  -- 76 blobDownload.Name downloadBlob:494 @Server.PullHandler$1
+  mk 65 16 .read [] 8 false false false false [5] [11] [],  -- 77 blobDownload.Parts blobDownload.Prepare:143 @Server.CreateHandler$1
+  mk 65 16 .read [] 9 false false false false [5] [11] [],  -- 78 blobDownload.Parts blobDownload.Prepare:143 @Server.PullHandler$1
+  mk 65 16 .write [] 8 false false false false [5] [11] [],  -- 79 blobDownload.Parts blobDownload.Prepare:143 @Server.CreateHandler$1
+  mk 65 16 .write [] 9 false false false false [5] [11] [],  -- 80 blobDownload.Parts blobDownload.Prepare:143 @Server.PullHandler$1
+  mk 66 16 .read [] 16 true false false false [] [5, 11] [],  -- 81 blobDownload.Parts blobDownload.run:276 @go:downloadBlob:download.Run
+  mk 67 16 .read [] 8 false false false false [5] [11] [],  -- 82 blobDownload.Parts blobDownload.newPart:392 @Server.CreateHandler$1
+  mk 67 16 .read [] 9 false false false false [5] [11] [],  -- 83 blobDownload.Parts blobDownload.newPart:392 @Server.PullHandler$1
+  mk 68 16 .write [] 8 false false false false [5] [11] [],  -- 84 blobDownload.Parts blobDownload.newPart:397 @Server.CreateHandler$1
+  mk 68 16 .write [] 9 false false false false [5] [11] [],  -- 85 blobDownload.Parts blobDownload.newPart:397 @Server.PullHandler$1
+  mk 69 17 .write [] 8 false false false false [5] [11] [],  -- 86 blobDownload.Total blobDownload.Prepare:141 @Server.CreateHandler$1
+  mk 69 17 .write [] 9 false false false false [5] [11] [],  -- 87 blobDownload.Total blobDownload.Prepare:141 @Server.PullHandler$1
+  mk 70 17 .read [] 8 false false false false [5] [11] [],  -- 88 blobDownload.Total blobDownload.Prepare:155 @Server.CreateHandler$1
+  mk 70 17 .read [] 9 false false false false [5] [11] [],  -- 89 blobDownload.Total blobDownload.Prepare:155 @Server.PullHandler$1
+  mk 71 17 .read [] 16 true false false false [2] [5, 11] [],  -- 90 blobDownload.Total blobDownload.run:226 @go:downloadBlob:download.Run
+  mk 72 17 .read [] 8 false false false false [] [11] [],  -- 91 blobDownload.Total blobDownload.Wait:450 @Server.CreateHandler$1
+  mk 72 17 .read [] 9 false false false false [] [11] [],  -- 92 blobDownload.Total blobDownload.Wait:450 @Server.PullHandler$1
+  mk 73 18 .write [] 8 false false false false [5] [11] [],  -- 93 blobDownload.done blobDownload.Prepare:133 @Server.CreateHandler$1
+  mk 73 18 .write [] 9 false false false false [5] [11] [],  -- 94 blobDownload.done blobDownload.Prepare:133 @Server.PullHandler$1
+  mk 74 18 .read [] 16 true false false false [] [5, 11] [],  -- 95 blobDownload.done blobDownload.Run:185 @go:downloadBlob:download.Run
+  mk 75 18 .read [] 8 false false false false [] [11] [2],  -- 96 blobDownload.done blobDownload.Wait:444 @Server.CreateHandler$1
+  mk 75 18 .read [] 9 false false false false [] [11] [2],  -- 97 blobDownload.done blobDownload.Wait:444 @Server.PullHandler$1
+  mk 76 19 .write [] 16 true false false false [] [5, 11] [2],  -- 98 blobDownload.err blobDownload.Run:186 @go:downloadBlob:download.Run
+  mk 77 19 .read [] 8 false false false false [] [11] [2],  -- 99 blobDownload.err blobDownload.Wait:445 @Server.CreateHandler$1
+  mk 77 19 .read [] 9 false false false false [] [11] [2],  -- 100 blobDownload.err blobDownload.Wait:445 @Server.PullHandler$1
+  mk 78 20 .write [] 8 false false false true [] [11] [],  -- 101 blobDownload.references blobDownload.acquire:428 @Server.CreateHandler$1
+  mk 78 20 .write [] 9 false false false true [] [11] [],  -- 102 blobDownload.references blobDownload.acquire:428 @Server.PullHandler$1
+  mk 79 20 .write [] 8 false false false true [] [11] [],  -- 103 blobDownload.references blobDownload.release:432 @Server.CreateHandler$1
+  mk 79 20 .write [] 9 false false false true [] [11] [],  -- 104 blobDownload.references blobDownload.release:432 @Server.PullHandler$1
   mk 80 21 .write [] 17 true false false false [21] [11, 22] [],  -- 105 blobUpload.CancelFunc blobUpload.Run:129 @go:uploadBlob:upload.Run
   mk 81 21 .read [] 10 false false false false [] [11] [],  -- 106 blobUpload.CancelFunc blobUpload.release:313 @Server.PushHandler$1
   mk 82 22 .write [] 10 false false false true [22] [11] [],  -- 107 blobUpload.Completed blobUpload.Prepare:87 @Server.PushHandler$1
@@ -153,87 +153,89 @@ def accesses : List Access := [
   mk 108 29 .read [] 15 false false false false [] [11, 21, 22] [],  -- 136 blobUpload.nextURL blobUpload.uploadPart:252 @blobUpload.Run$1
   mk 109 30 .write [] 10 false false false true [] [11] [],  -- 137 blobUpload.references blobUpload.acquire:308 @Server.PushHandler$1
   mk 110 30 .write [] 10 false false false true [] [11] [],  -- 138 blobUpload.references blobUpload.release:312 @Server.PushHandler$1
-  mk 56 31 .write [] 16 false false false true [] [11] [],  -- 139 global.blobDownloadManager blobDownload.run:215 @go:downloadBlob:download.Run
-  mk 58 31 .write [] 8 false false false true [] [11] [],  -- 140 global.blobDownloadManager downloadBlob:488 @Server.CreateHandler$1
-  mk 58 31 .write [] 9 false false false true [] [11] [],  -- 141 global.blobDownloadManager downloadBlob:488 @Server.PullHandler$1
+  mk 56 31 .write [] 16 false false false true [] [11] [],  -- 139 global.blobDownloadManager blobDownload.run:216 @go:downloadBlob:download.Run
+  mk 58 31 .write [] 8 false false false true [] [11] [],  -- 140 global.blobDownloadManager downloadBlob:494 @Server.CreateHandler$1
+  mk 58 31 .write [] 9 false false false true [] [11] [],  -- 141 global.blobDownloadManager downloadBlob:494 @Server.PullHandler$1
   mk 87 32 .write [] 17 false false false true [] [11] [],  -- 142 global.blobUploadManager blobUpload.Run:128 @go:uploadBlob:upload.Run
   mk 91 32 .write [] 10 false false false true [] [11] [],  -- 143 global.blobUploadManager uploadBlob:388 @Server.PushHandler$1
-  mk 111 33 .mapRead [] 11 false false false false [] [11] [],  -- 144 global.intermediateBlobs Server.CreateBlobHandler:1006 @api
-  mk 112 33 .mapDelete [] 11 false false false false [] [11] [],  -- 145 global.intermediateBlobs Server.CreateBlobHandler:1015 @api
-  mk 113 34 .write [] 0 true true false false [] [13] [],  -- 146 runnerRef.Options Scheduler.load:438 @Scheduler.Run$1
-  mk 114 34 .write [⟨0, false⟩, ⟨1, true⟩] 1 true false false false [] [14] [1],  -- 147 runnerRef.Options runnerRef.unload:572 @Scheduler.Run$2
-  mk 115 34 .read [⟨1, true⟩] 0 true false false false [] [13] [],  -- 148 runnerRef.Options runnerRef.needsReload:586 @Scheduler.Run$1
-  mk 116 35 .read [⟨0, false⟩] 11 false false false false [] [11] [],  -- 149 runnerRef.estimatedTotal Server.PsHandler:1414 @api
-  mk 117 35 .write [] 0 true true false false [] [13] [],  -- 150 runnerRef.estimatedTotal Scheduler.load:442 @Scheduler.Run$1
-  mk 118 36 .read [⟨0, false⟩] 11 false false false false [] [11] [],  -- 151 runnerRef.estimatedVRAM Server.PsHandler:1415 @api
-  mk 119 36 .write [] 0 true true false false [] [13] [],  -- 152 runnerRef.estimatedVRAM Scheduler.load:441 @Scheduler.Run$1
-  mk 120 36 .read [] 19 false false false false [] [14] [],  -- 153 runnerRef.estimatedVRAM runnerRef.waitForVRAMRecovery$1:660 @runnerRef.waitForVRAMRecovery$1
-  mk 121 37 .read [⟨1, true⟩] 0 true false false false [] [13] [],  -- 154 runnerRef.expireTimer Scheduler.processPending:286 @Scheduler.Run$1
-  mk 122 37 .write [⟨1, true⟩] 0 true false false false [] [13] [],  -- 155 runnerRef.expireTimer Scheduler.processPending:288 @Scheduler.Run$1
-  mk 123 37 .read [⟨1, true⟩] 1 true false false false [] [14] [],  -- 156 runnerRef.expireTimer Scheduler.processCompleted:335 @Scheduler.Run$2
-  mk 124 37 .write [⟨1, true⟩] 1 true false false false [] [14] [],  -- 157 runnerRef.expireTimer Scheduler.processCompleted:337 @Scheduler.Run$2
-  mk 125 37 .read [⟨1, true⟩] 0 true false false false [] [13] [],  -- 158 runnerRef.expireTimer LlmRequest.useLoadedRunner:399 @Scheduler.Run$1
-  mk 126 37 .write [⟨1, true⟩] 0 true false false false [] [13] [],  -- 159 runnerRef.expireTimer LlmRequest.useLoadedRunner:401 @Scheduler.Run$1
-  mk 127 37 .read [⟨0, false⟩, ⟨1, true⟩] 1 true false false false [] [14] [1],  -- 160 runnerRef.expireTimer runnerRef.unload:563 @Scheduler.Run$2
-  mk 128 37 .write [⟨0, false⟩, ⟨1, true⟩] 1 true false false false [] [14] [1],  -- 161 runnerRef.expireTimer runnerRef.unload:565 @Scheduler.Run$2
-  mk 129 37 .read [⟨0, false⟩, ⟨1, true⟩] 11 false false false false [] [11] [],  -- 162 runnerRef.expireTimer Scheduler.expireRunner:819 @api
-  mk 130 37 .write [⟨0, false⟩, ⟨1, true⟩] 11 false false false false [] [11] [],  -- 163 runnerRef.expireTimer Scheduler.expireRunner:821 @api
-  mk 131 37 .read [⟨1, true⟩] 4 false false false false [] [14] [],  -- 164 runnerRef.expireTimer Scheduler.processCompleted$1:346 @Scheduler.processCompleted$1
-  mk 132 37 .write [⟨1, true⟩] 4 false false false false [] [14] [],  -- 165 runnerRef.expireTimer Scheduler.processCompleted$1:348 @Scheduler.processCompleted$1
-  mk 133 38 .read [⟨0, false⟩] 11 false false false false [] [11] [],  -- 166 runnerRef.expiresAt Server.PsHandler:1418 @api
-  mk 134 38 .write [⟨1, true⟩] 1 true false false false [] [14] [],  -- 167 runnerRef.expiresAt Scheduler.processCompleted:352 @Scheduler.Run$2
-  mk 135 38 .write [⟨0, false⟩, ⟨1, true⟩] 11 false false false false [] [11] [],  -- 168 runnerRef.expiresAt Scheduler.expireRunner:818 @api
-  mk 136 39 .write [] 0 true true false false [] [13] [],  -- 169 runnerRef.gpus Scheduler.load:440 @Scheduler.Run$1
-  mk 137 39 .read [⟨0, false⟩] 0 true false false false [] [13] [],  -- 170 runnerRef.gpus Scheduler.filterGPUsWithoutLoadingModels:524 @Scheduler.Run$1
-  mk 138 39 .write [⟨0, false⟩, ⟨1, true⟩] 1 true false false false [] [14] [1],  -- 171 runnerRef.gpus runnerRef.unload:573 @Scheduler.Run$2
-  mk 139 39 .read [⟨0, false⟩, ⟨1, true⟩] 1 true false false false [] [14] [],  -- 172 runnerRef.gpus runnerRef.waitForVRAMRecovery:626 @Scheduler.Run$2
+  mk 111 33 .mapRead [] 11 false false false false [] [11] [],  -- 144 global.intermediateBlobs Server.CreateBlobHandler:1029 @api
+  mk 112 33 .mapDelete [] 11 false false false false [] [11] [],  -- 145 global.intermediateBlobs Server.CreateBlobHandler:1038 @api
+  mk 113 34 .write [] 0 true true false false [] [13] [],  -- 146 runnerRef.Options Scheduler.load:457 @Scheduler.Run$1
+  mk 114 34 .write [⟨0, false⟩, ⟨1, true⟩] 1 true false false false [] [14] [1],  -- 147 runnerRef.Options runnerRef.unload:591 @Scheduler.Run$2
+  mk 115 34 .read [⟨1, true⟩] 0 true false false false [] [13] [],  -- 148 runnerRef.Options runnerRef.needsReload:605 @Scheduler.Run$1
+  mk 116 35 .read [⟨0, false⟩] 11 false false false false [] [11] [],  -- 149 runnerRef.estimatedTotal Server.PsHandler:1437 @api
+  mk 117 35 .write [] 0 true true false false [] [13] [],  -- 150 runnerRef.estimatedTotal Scheduler.load:461 @Scheduler.Run$1
+  mk 118 36 .read [⟨0, false⟩] 11 false false false false [] [11] [],  -- 151 runnerRef.estimatedVRAM Server.PsHandler:1438 @api
+  mk 119 36 .write [] 0 true true false false [] [13] [],  -- 152 runnerRef.estimatedVRAM Scheduler.load:460 @Scheduler.Run$1
+  mk 120 36 .read [] 19 false false false false [] [14] [],  -- 153 runnerRef.estimatedVRAM runnerRef.waitForVRAMRecovery$1:679 @runnerRef.waitForVRAMRecovery$1
+  mk 121 37 .read [⟨1, true⟩] 0 true false false false [] [13] [],  -- 154 runnerRef.expireTimer Scheduler.processPending:289 @Scheduler.Run$1
+  mk 122 37 .write [⟨1, true⟩] 0 true false false false [] [13] [],  -- 155 runnerRef.expireTimer Scheduler.processPending:291 @Scheduler.Run$1
+  mk 123 37 .read [⟨1, true⟩] 1 true false false false [] [14] [],  -- 156 runnerRef.expireTimer Scheduler.processCompleted:338 @Scheduler.Run$2
+  mk 124 37 .write [⟨1, true⟩] 1 true false false false [] [14] [],  -- 157 runnerRef.expireTimer Scheduler.processCompleted:340 @Scheduler.Run$2
+  mk 125 37 .read [⟨1, true⟩] 0 true false false false [] [13] [],  -- 158 runnerRef.expireTimer LlmRequest.useLoadedRunner:417 @Scheduler.Run$1
+  mk 126 37 .write [⟨1, true⟩] 0 true false false false [] [13] [],  -- 159 runnerRef.expireTimer LlmRequest.useLoadedRunner:419 @Scheduler.Run$1
+  mk 127 37 .read [⟨0, false⟩, ⟨1, true⟩] 1 true false false false [] [14] [1],  -- 160 runnerRef.expireTimer runnerRef.unload:582 @Scheduler.Run$2
+  mk 128 37 .write [⟨0, false⟩, ⟨1, true⟩] 1 true false false false [] [14] [1],  -- 161 runnerRef.expireTimer runnerRef.unload:584 @Scheduler.Run$2
+  mk 129 37 .read [⟨0, false⟩, ⟨1, true⟩] 11 false false false false [] [11] [],  -- 162 runnerRef.expireTimer Scheduler.expireRunner:838 @api
+  mk 130 37 .write [⟨0, false⟩, ⟨1, true⟩] 11 false false false false [] [11] [],  -- 163 runnerRef.expireTimer Scheduler.expireRunner:840 @api
+  mk 131 37 .read [⟨1, true⟩] 4 false false false false [] [14] [],  -- 164 runnerRef.expireTimer Scheduler.processCompleted$1:349 @Scheduler.processCompleted$1
+  mk 132 37 .write [⟨1, true⟩] 4 false false false false [] [14] [],  -- 165 runnerRef.expireTimer Scheduler.processCompleted$1:351 @Scheduler.processCompleted$1
+  mk 133 38 .read [⟨0, false⟩] 11 false false false false [] [11] [],  -- 166 runnerRef.expiresAt Server.PsHandler:1441 @api
+  mk 134 38 .write [⟨1, true⟩] 1 true false false false [] [14] [],  -- 167 runnerRef.expiresAt Scheduler.processCompleted:355 @Scheduler.Run$2
+  mk 135 38 .write [⟨0, false⟩, ⟨1, true⟩] 11 false false false false [] [11] [],  -- 168 runnerRef.expiresAt Scheduler.expireRunner:837 @api
+  mk 136 39 .write [] 0 true true false false [] [13] [],  -- 169 runnerRef.gpus Scheduler.load:459 @Scheduler.Run$1
+  mk 137 39 .read [⟨0, false⟩] 0 true false false false [] [13] [],  -- 170 runnerRef.gpus Scheduler.filterGPUsWithoutLoadingModels:543 @Scheduler.Run$1
+  mk 138 39 .write [⟨0, false⟩, ⟨1, true⟩] 1 true false false false [] [14] [1],  -- 171 runnerRef.gpus runnerRef.unload:592 @Scheduler.Run$2
+  mk 139 39 .read [⟨0, false⟩, ⟨1, true⟩] 1 true false false false [] [14] [],  -- 172 runnerRef.gpus runnerRef.waitForVRAMRecovery:645 @Scheduler.Run$2
   mk 140 40 .read [] 11 false false false false [] [11] [1],  -- 173 runnerRef.llama Server.scheduleRunner:117 @api
-  mk 141 40 .write [] 0 true true false false [] [13] [],  -- 174 runnerRef.llama Scheduler.load:437 @Scheduler.Run$1
-  mk 142 40 .read [⟨0, false⟩, ⟨1, true⟩] 0 true false false false [] [13] [],  -- 175 runnerRef.llama Scheduler.updateFreeSpace:484 @Scheduler.Run$1
-  mk 143 40 .read [⟨0, false⟩, ⟨1, true⟩] 1 true false false false [] [14] [1],  -- 176 runnerRef.llama runnerRef.unload:567 @Scheduler.Run$2
-  mk 144 40 .write [⟨0, false⟩, ⟨1, true⟩] 1 true false false false [] [14] [1],  -- 177 runnerRef.llama runnerRef.unload:571 @Scheduler.Run$2
-  mk 145 40 .read [⟨1, true⟩] 0 true false false false [] [13] [],  -- 178 runnerRef.llama runnerRef.needsReload:606 @Scheduler.Run$1
-  mk 146 40 .read [⟨0, false⟩] 7 true false false false [] [10] [],  -- 179 runnerRef.llama Scheduler.unloadAllRunners:805 @Serve$2
-  mk 147 41 .write [] 0 true true false false [] [13] [],  -- 180 runnerRef.loading Scheduler.load:443 @Scheduler.Run$1
-  mk 148 41 .read [⟨0, false⟩] 0 true false false false [] [13] [],  -- 181 runnerRef.loading Scheduler.filterGPUsWithoutLoadingModels:523 @Scheduler.Run$1
-  mk 149 41 .read [⟨1, true⟩] 0 true false false false [] [13] [],  -- 182 runnerRef.loading runnerRef.needsReload:582 @Scheduler.Run$1
-  mk 150 41 .write [⟨1, true⟩] 2 false false false false [] [13] [],  -- 183 runnerRef.loading Scheduler.load$1:465 @Scheduler.load$1
-  mk 151 42 .read [⟨0, false⟩] 11 false false false false [] [11] [],  -- 184 runnerRef.model Server.PsHandler:1402 @api
-  mk 152 42 .write [] 0 true true false false [] [13] [],  -- 185 runnerRef.model Scheduler.load:435 @Scheduler.Run$1
-  mk 153 42 .write [⟨0, false⟩, ⟨1, true⟩] 1 true false false false [] [14] [1],  -- 186 runnerRef.model runnerRef.unload:570 @Scheduler.Run$2
-  mk 154 42 .read [⟨1, true⟩] 0 true false false false [] [13] [],  -- 187 runnerRef.model runnerRef.needsReload:603 @Scheduler.Run$1
-  mk 155 43 .read [⟨1, true⟩] 0 true false false false [] [13] [],  -- 188 runnerRef.modelPath Scheduler.processPending:285 @Scheduler.Run$1
-  mk 156 43 .read [] 0 true false false false [] [13] [],  -- 189 runnerRef.modelPath Scheduler.processPending:298 @Scheduler.Run$1
-  mk 157 43 .read [⟨1, true⟩] 1 true false false false [] [14] [],  -- 190 runnerRef.modelPath Scheduler.processCompleted:334 @Scheduler.Run$2
-  mk 158 43 .read [] 1 true false false false [] [14] [],  -- 191 runnerRef.modelPath Scheduler.processCompleted:362 @Scheduler.Run$2
-  mk 159 43 .read [⟨0, false⟩, ⟨1, true⟩] 1 true false false false [] [14] [],  -- 192 runnerRef.modelPath Scheduler.processCompleted:377 @Scheduler.Run$2
-  mk 160 43 .write [] 0 true true false false [] [13] [],  -- 193 runnerRef.modelPath Scheduler.load:436 @Scheduler.Run$1
-  mk 137 43 .read [⟨0, false⟩] 0 true false false false [] [13] [],  -- 194 runnerRef.modelPath Scheduler.filterGPUsWithoutLoadingModels:524 @Scheduler.Run$1
-  mk 161 43 .read [] 0 true false false false [] [13] [],  -- 195 runnerRef.modelPath ByDurationAndName.Less:682 @Scheduler.Run$1
-  mk 162 43 .read [] 4 false false false false [] [14] [],  -- 196 runnerRef.modelPath Scheduler.processCompleted$1:343 @Scheduler.processCompleted$1
-  mk 163 43 .read [⟨1, true⟩] 2 false false false false [] [13] [],  -- 197 runnerRef.modelPath Scheduler.load$1:460 @Scheduler.load$1
-  mk 164 43 .read [] 19 false false false false [] [14] [],  -- 198 runnerRef.modelPath runnerRef.waitForVRAMRecovery$1:648 @runnerRef.waitForVRAMRecovery$1
-  mk 165 44 .write [] 0 true true false false [] [13] [],  -- 199 runnerRef.numParallel Scheduler.load:446 @Scheduler.Run$1
-  mk 166 44 .read [⟨1, true⟩] 0 true false false false [] [13] [],  -- 200 runnerRef.numParallel runnerRef.needsReload:599 @Scheduler.Run$1
-  mk 155 45 .read [⟨1, true⟩] 0 true false false false [] [13] [],  -- 201 runnerRef.refCount Scheduler.processPending:285 @Scheduler.Run$1
-  mk 167 45 .write [⟨1, true⟩] 1 true false false false [] [14] [],  -- 202 runnerRef.refCount Scheduler.processCompleted:331 @Scheduler.Run$2
-  mk 168 45 .read [⟨1, true⟩] 1 true false false false [] [14] [],  -- 203 runnerRef.refCount Scheduler.processCompleted:332 @Scheduler.Run$2
-  mk 169 45 .write [⟨1, true⟩] 0 true false false false [] [13] [],  -- 204 runnerRef.refCount LlmRequest.useLoadedRunner:398 @Scheduler.Run$1
-  mk 170 45 .write [] 0 true true false false [] [13] [],  -- 205 runnerRef.refCount Scheduler.load:444 @Scheduler.Run$1
-  mk 171 45 .read [⟨1, true⟩] 0 true false false false [] [13] [],  -- 206 runnerRef.refCount Scheduler.findRunnerToUnload:789 @Scheduler.Run$1
-  mk 172 45 .read [⟨0, false⟩, ⟨1, true⟩] 11 false false false false [] [11] [],  -- 207 runnerRef.refCount Scheduler.expireRunner:824 @api
-  mk 173 45 .write [⟨1, true⟩] 2 false false false false [] [13] [],  -- 208 runnerRef.refCount Scheduler.load$1:458 @Scheduler.load$1
-  mk 174 46 .read [⟨0, false⟩] 11 false false false false [] [11] [],  -- 209 runnerRef.sessionDuration Server.PsHandler:1425 @api
-  mk 175 46 .write [⟨1, true⟩] 0 true false false false [] [13] [],  -- 210 runnerRef.sessionDuration Scheduler.processPending:290 @Scheduler.Run$1
-  mk 176 46 .read [⟨1, true⟩] 1 true false false false [] [14] [],  -- 211 runnerRef.sessionDuration Scheduler.processCompleted:333 @Scheduler.Run$2
-  mk 177 46 .write [⟨1, true⟩] 0 true false false false [] [13] [],  -- 212 runnerRef.sessionDuration LlmRequest.useLoadedRunner:404 @Scheduler.Run$1
-  mk 178 46 .write [] 0 true true false false [] [13] [],  -- 213 runnerRef.sessionDuration Scheduler.load:439 @Scheduler.Run$1
-  mk 179 46 .read [] 0 true false false false [] [13] [],  -- 214 runnerRef.sessionDuration ByDurationAndName.Less:676 @Scheduler.Run$1
-  mk 180 46 .write [⟨0, false⟩, ⟨1, true⟩] 11 false false false false [] [11] []  -- 215 runnerRef.sessionDuration Scheduler.expireRunner:823 @api
+  mk 141 40 .read [⟨1, true⟩] 0 true false false false [] [13] [],  -- 174 runnerRef.llama LlmRequest.useLoadedRunner:411 @Scheduler.Run$1
+  mk 142 40 .write [] 0 true true false false [] [13] [],  -- 175 runnerRef.llama Scheduler.load:456 @Scheduler.Run$1
+  mk 143 40 .read [⟨0, false⟩, ⟨1, true⟩] 0 true false false false [] [13] [],  -- 176 runnerRef.llama Scheduler.updateFreeSpace:503 @Scheduler.Run$1
+  mk 144 40 .read [⟨0, false⟩, ⟨1, true⟩] 1 true false false false [] [14] [1],  -- 177 runnerRef.llama runnerRef.unload:586 @Scheduler.Run$2
+  mk 145 40 .write [⟨0, false⟩, ⟨1, true⟩] 1 true false false false [] [14] [1],  -- 178 runnerRef.llama runnerRef.unload:590 @Scheduler.Run$2
+  mk 146 40 .read [⟨1, true⟩] 0 true false false false [] [13] [],  -- 179 runnerRef.llama runnerRef.needsReload:625 @Scheduler.Run$1
+  mk 147 40 .read [⟨0, false⟩] 7 true false false false [] [10] [],  -- 180 runnerRef.llama Scheduler.unloadAllRunners:824 @Serve$2
+  mk 148 41 .write [] 0 true true false false [] [13] [],  -- 181 runnerRef.loading Scheduler.load:462 @Scheduler.Run$1
+  mk 149 41 .read [⟨0, false⟩] 0 true false false false [] [13] [],  -- 182 runnerRef.loading Scheduler.filterGPUsWithoutLoadingModels:542 @Scheduler.Run$1
+  mk 150 41 .read [⟨1, true⟩] 0 true false false false [] [13] [],  -- 183 runnerRef.loading runnerRef.needsReload:601 @Scheduler.Run$1
+  mk 151 41 .write [⟨1, true⟩] 2 false false false false [] [13] [],  -- 184 runnerRef.loading Scheduler.load$1:484 @Scheduler.load$1
+  mk 152 42 .read [⟨0, false⟩] 11 false false false false [] [11] [],  -- 185 runnerRef.model Server.PsHandler:1425 @api
+  mk 153 42 .write [] 0 true true false false [] [13] [],  -- 186 runnerRef.model Scheduler.load:454 @Scheduler.Run$1
+  mk 154 42 .write [⟨0, false⟩, ⟨1, true⟩] 1 true false false false [] [14] [1],  -- 187 runnerRef.model runnerRef.unload:589 @Scheduler.Run$2
+  mk 155 42 .read [⟨1, true⟩] 0 true false false false [] [13] [],  -- 188 runnerRef.model runnerRef.needsReload:622 @Scheduler.Run$1
+  mk 156 43 .read [⟨1, true⟩] 0 true false false false [] [13] [],  -- 189 runnerRef.modelPath Scheduler.processPending:288 @Scheduler.Run$1
+  mk 157 43 .read [] 0 true false false false [] [13] [],  -- 190 runnerRef.modelPath Scheduler.processPending:301 @Scheduler.Run$1
+  mk 158 43 .read [⟨1, true⟩] 1 true false false false [] [14] [],  -- 191 runnerRef.modelPath Scheduler.processCompleted:337 @Scheduler.Run$2
+  mk 159 43 .read [] 1 true false false false [] [14] [],  -- 192 runnerRef.modelPath Scheduler.processCompleted:365 @Scheduler.Run$2
+  mk 160 43 .read [⟨0, false⟩, ⟨1, true⟩] 1 true false false false [] [14] [],  -- 193 runnerRef.modelPath Scheduler.processCompleted:371 @Scheduler.Run$2
+  mk 161 43 .write [] 0 true true false false [] [13] [],  -- 194 runnerRef.modelPath Scheduler.load:455 @Scheduler.Run$1
+  mk 137 43 .read [⟨0, false⟩] 0 true false false false [] [13] [],  -- 195 runnerRef.modelPath Scheduler.filterGPUsWithoutLoadingModels:543 @Scheduler.Run$1
+  mk 162 43 .read [] 0 true false false false [] [13] [],  -- 196 runnerRef.modelPath ByDurationAndName.Less:701 @Scheduler.Run$1
+  mk 163 43 .read [] 4 false false false false [] [14] [],  -- 197 runnerRef.modelPath Scheduler.processCompleted$1:346 @Scheduler.processCompleted$1
+  mk 164 43 .read [⟨1, true⟩] 2 false false false false [] [13] [],  -- 198 runnerRef.modelPath Scheduler.load$1:479 @Scheduler.load$1
+  mk 165 43 .read [] 19 false false false false [] [14] [],  -- 199 runnerRef.modelPath runnerRef.waitForVRAMRecovery$1:667 @runnerRef.waitForVRAMRecovery$1
+  mk 166 44 .write [] 0 true true false false [] [13] [],  -- 200 runnerRef.numParallel Scheduler.load:465 @Scheduler.Run$1
+  mk 167 44 .read [⟨1, true⟩] 0 true false false false [] [13] [],  -- 201 runnerRef.numParallel runnerRef.needsReload:618 @Scheduler.Run$1
+  mk 156 45 .read [⟨1, true⟩] 0 true false false false [] [13] [],  -- 202 runnerRef.refCount Scheduler.processPending:288 @Scheduler.Run$1
+  mk 168 45 .write [⟨1, true⟩] 1 true false false false [] [14] [],  -- 203 runnerRef.refCount Scheduler.processCompleted:334 @Scheduler.Run$2
+  mk 169 45 .read [⟨1, true⟩] 1 true false false false [] [14] [],  -- 204 runnerRef.refCount Scheduler.processCompleted:335 @Scheduler.Run$2
+  mk 170 45 .read [⟨0, false⟩, ⟨1, true⟩] 1 true false false false [] [14] [],  -- 205 runnerRef.refCount Scheduler.processCompleted:370 @Scheduler.Run$2
+  mk 171 45 .write [⟨1, true⟩] 0 true false false false [] [13] [],  -- 206 runnerRef.refCount LlmRequest.useLoadedRunner:416 @Scheduler.Run$1
+  mk 172 45 .write [] 0 true true false false [] [13] [],  -- 207 runnerRef.refCount Scheduler.load:463 @Scheduler.Run$1
+  mk 173 45 .read [⟨1, true⟩] 0 true false false false [] [13] [],  -- 208 runnerRef.refCount Scheduler.findRunnerToUnload:808 @Scheduler.Run$1
+  mk 174 45 .read [⟨0, false⟩, ⟨1, true⟩] 11 false false false false [] [11] [],  -- 209 runnerRef.refCount Scheduler.expireRunner:843 @api
+  mk 175 45 .write [⟨1, true⟩] 2 false false false false [] [13] [],  -- 210 runnerRef.refCount Scheduler.load$1:477 @Scheduler.load$1
+  mk 176 46 .read [⟨0, false⟩] 11 false false false false [] [11] [],  -- 211 runnerRef.sessionDuration Server.PsHandler:1448 @api
+  mk 177 46 .write [⟨1, true⟩] 0 true false false false [] [13] [],  -- 212 runnerRef.sessionDuration Scheduler.processPending:293 @Scheduler.Run$1
+  mk 178 46 .read [⟨1, true⟩] 1 true false false false [] [14] [],  -- 213 runnerRef.sessionDuration Scheduler.processCompleted:336 @Scheduler.Run$2
+  mk 179 46 .write [⟨1, true⟩] 0 true false false false [] [13] [],  -- 214 runnerRef.sessionDuration LlmRequest.useLoadedRunner:422 @Scheduler.Run$1
+  mk 180 46 .write [] 0 true true false false [] [13] [],  -- 215 runnerRef.sessionDuration Scheduler.load:458 @Scheduler.Run$1
+  mk 181 46 .read [] 0 true false false false [] [13] [],  -- 216 runnerRef.sessionDuration ByDurationAndName.Less:695 @Scheduler.Run$1
+  mk 182 46 .write [⟨0, false⟩, ⟨1, true⟩] 11 false false false false [] [11] []  -- 217 runnerRef.sessionDuration Scheduler.expireRunner:842 @api
 ]
 
 /-- (class, site, site) of the pairs the translator's own implementation of the rule rejects -/
-def expectedViolations : List (Nat × Nat × Nat) := [(12, 49, 50), (12, 49, 50), (17, 69, 72), (17, 69, 72), (17, 69, 72), (17, 69, 72), (18, 73, 75), (18, 73, 75), (18, 73, 75), (18, 73, 75), (21, 80, 81), (25, 95, 96), (26, 97, 99), (26, 98, 99), (27, 100, 99), (27, 101, 99), (38, 133, 134), (41, 148, 150), (46, 174, 175), (46, 174, 177), (46, 179, 180)]
+def expectedViolations : List (Nat × Nat × Nat) := [(12, 49, 50), (12, 49, 50), (17, 69, 72), (17, 69, 72), (17, 69, 72), (17, 69, 72), (18, 73, 75), (18, 73, 75), (18, 73, 75), (18, 73, 75), (21, 80, 81), (25, 95, 96), (26, 97, 99), (26, 98, 99), (27, 100, 99), (27, 101, 99), (38, 133, 134), (41, 149, 151), (46, 176, 177), (46, 176, 179), (46, 181, 182)]
 
 def badClassIds : List Nat := [12, 17, 18, 21, 25, 26, 27, 38, 41, 46]
 def goodClassIds : List Nat := [0, 1, 2, 3, 4, 5, 6, 7, 8, 9, 10, 11, 13, 14, 15, 16, 19, 20, 22, 23, 24, 28, 29, 30, 31, 32, 33, 34, 35, 36, 37, 39, 40, 42, 43, 44, 45]
